@@ -34,12 +34,12 @@ def IF(test, then, otherwise=False):
 
 @dispatcher.register_for('IFERROR')
 def IFERROR(value, value_if_error):
-    return value if not isinstance(value, error.XLError) else value_if_error
+    return value if not isinstance(utils.single(value), error.XLError) else value_if_error
 
 
 @dispatcher.register_for('IFNA')
 def IFNA(value, value_if_na):
-    return value if value != error.NOT_AVAILABLE else value_if_na
+    return value if utils.single(value) != error.NOT_AVAILABLE else value_if_na
 
 
 @dispatcher.register_for('NOT')
@@ -87,7 +87,7 @@ def SWITCH(target_value, *args):
     default_clause = utils.DEFAULT if (argc % 2 == 0) else args[-1]
     # pairs only: with an odd count the last argument is the default, not a case
     for i in range(0, argc - 1, 2):
-        if switch_equal(target_value, args[i]):
+        if switch_equal(target_value, utils.single(args[i])):
             return args[i + 1]
     if default_clause is not utils.DEFAULT:
         return default_clause
